@@ -466,7 +466,7 @@ Lemma initialize_sorted s mr : ssorted s -> ssorted (snd (initialize s mr)).
 Proof.
   intros S. unfold initialize.
   set (acc := load_rules s).
-  set (s2 := fold_left _ (la_delete acc) _).
+  set (s2 := fold_left _ (filter _ (la_delete acc)) _).
   assert (S2 : ssorted s2).
   { subst s2. apply fold_rule_del_sorted. apply fold_rule_put_sorted. exact S. }
   clearbody s2.
@@ -726,7 +726,7 @@ Proof.
   intros [A B C D] Hcan [M1 M2 M3] Hne. unfold initialize.
   assert (L : la_rules (load_rules s) = strip_rules (c_rules c) /\ la_save (load_rules s) = [] /\ la_delete (load_rules s) = []).
   { unfold load_rules. rewrite M1. apply (load_rules_mirror (c_rules c) [] (LoadAcc [] [] [])); cbn; auto. }
-  destruct L as (L1 & L2 & L3). rewrite L1, L2, L3. cbn [fold_left].
+  destruct L as (L1 & L2 & L3). rewrite L1, L2, L3. cbn [fold_left filter].
   destruct (strip_rules (c_rules c)) as [|x xs] eqn:Es.
   { exfalso. destruct (c_rules c); [congruence|discriminate]. }
   rewrite <- Es. rewrite M2.
